@@ -149,6 +149,15 @@ class ZooMesh:
         return Mesh(d)
 
     # -- derived meshes
+    def kinked(self, x0=0.5, w=0.3, name=None) -> "ZooMesh":
+        """Piecewise-linear stretch along x with the kink on the plane x = x0 (a cell boundary of the template on [0, 1]):
+        [0, x0] -> [0, w], [x0, 1] -> [w, 1].  Each cell is mapped affinely (straight-sided elements of any order stay valid),
+        the tiled domain, hence measure and centroid, are unchanged, but cells on either side get different measures."""
+        co = self.coords.copy()
+        x = co[:, 0]
+        co[:, 0] = np.where(x <= x0 + 1e-12, x * (w / x0), w + (x - x0) * ((1.0 - w) / (1.0 - x0)))
+        return ZooMesh(co, self.groups, dict(self.exact), name or f"{self.name}|kink", self.boundary)
+
     def mapped(self, A=None, b=None, name=None) -> "ZooMesh":
         """Affine image x -> A x + b (A 3x3)."""
         A = np.eye(3) if A is None else np.asarray(A, dtype=float)
